@@ -47,6 +47,27 @@ def mk_config(prog, st, fixed=None, layout_elems=()):
     return struct_of(prog, "Config", vals), opts
 
 
+def mk_data(prog, st):
+    """`Data` as the crate declares it: the known tables are opaque (their accessors are oracle cut points); a field this machinery does not
+    know (a refactor added a derived value) is an unconstrained value of its type, so code reading it is executed rather than refused -
+    a counterexample that depends on it is only reported after a native search re-finds it on the real data."""
+    from mirsym.values import INT_BITS
+    order = prog.structs.get("Data")
+    if order is None:
+        return Opaque("Data")
+    types = prog.struct_field_types.get("Data", {})
+    vals = []
+    for f in order:
+        t = types.get(f, "").strip()
+        if t in INT_BITS and t not in ("bool", "char"):
+            vals.append(st.sym_bv("data_" + f, INT_BITS[t]))
+        elif t == "bool":
+            vals.append(st.sym_bool("data_" + f))
+        else:
+            vals.append(Opaque("Data." + f))
+    return Agg("adt:Data", None, vals)
+
+
 def pending_value(prog, name):
     if name is None:
         return none()
